@@ -392,6 +392,28 @@ func (b *builder) cloneBody() *ast.BlockStmt {
 		}
 		return true
 	})
+	// what this splice declares is taken for the next splice into the same declaration
+	for _, p := range b.params {
+		if !p.subst && !p.drop && p.name != "_" {
+			if nm, ok := b.rename[p.obj]; ok {
+				c.names[nm] = true
+			} else {
+				c.names[p.name] = true
+			}
+		}
+	}
+	ast.Inspect(body, func(n ast.Node) bool {
+		if id, ok := n.(*ast.Ident); ok && id.Name != "_" {
+			if o := c.defOf(id); o != nil {
+				if nm, ok := b.rename[o]; ok {
+					c.names[nm] = true
+				} else {
+					c.names[id.Name] = true
+				}
+			}
+		}
+		return true
+	})
 	// apply: renames, substitutions, hygiene
 	var apply func(n ast.Node) ast.Node
 	replaceExpr := func(e ast.Expr) ast.Expr {
